@@ -95,6 +95,9 @@ func (h H) rejectOrEnqueue(rule string) {
 			continue // only complete first iterations
 		}
 		key := "(*leader).storeEntry iteration[" + t.Describe() + "]"
+		if t.ExitPos == "" {
+			t.ExitPos = h.fpos(fn)
+		}
 		replies, links, appends := 0, 0, 0
 		var appendEv, idxEv, termEv *core.Event
 		var replyArg string
@@ -307,4 +310,66 @@ func (h H) releaseEmptiesHolders(rule string) {
 	// leader.init starts from an empty queue as well: neHead/neTail are written only by storeEntry/applyCommitted/release
 	h.onlyWriters(rule+" who-may-write", "raft:leader.neHead", "(*leader).storeEntry", "(*leader).applyCommitted", "(*leader).release")
 	h.onlyWriters(rule+" who-may-write", "raft:leader.neTail", "(*leader).storeEntry", "(*leader).applyCommitted", "(*leader).release")
+}
+
+// taskConstructors (C07.6): the public task constructors are the only place
+// where the kind of a client request is chosen; everything downstream
+// (isLogEntry, storeEntry, onApply) dispatches on entry.typ. A read built as
+// a dirty read is answered without passing through the log, an update built as
+// a read is never stored. The table below is the documented API.
+func (h H) taskConstructors(rule string) {
+	ft := h.fn("raft:fsmTask")
+	want := []struct{ fn, typ, cmd, data string }{
+		{"raft:UpdateFSM", "raft:entryUpdate", "nil", "$0"},
+		{"raft:ReadFSM", "raft:entryRead", "$0", "nil"},
+		{"raft:DirtyReadFSM", "raft:entryDirtyRead", "$0", "nil"},
+		{"raft:BarrierFSM", "raft:entryBarrier", "nil", "nil"},
+	}
+	for _, w := range want {
+		fn := h.fn(w.fn)
+		fi := h.P.Info(fn)
+		calls := h.P.CallsTo(fn, ft)
+		rets := core.Returns(fn)
+		ok := len(calls) == 1 && len(rets) == 1
+		detail := "must return fsmTask(<its documented entry type>, cmd, data)"
+		if ok {
+			c := calls[0]
+			typ := fi.Sym(c.Common().Args[0]).String()
+			cmd := fi.Sym(c.Common().Args[1]).String()
+			data := fi.Sym(c.Common().Args[2]).String()
+			wantTyp := h.constStr(w.typ)
+			ret, _ := rets[0].Results[0].(ssa.Value)
+			same := false
+			if mi, isMI := ret.(*ssa.MakeInterface); isMI {
+				ret = mi.X
+			}
+			if cv, isCall := ret.(*ssa.Call); isCall && ssa.CallInstruction(cv) == c {
+				same = true
+			}
+			ok = typ == wantTyp && cmd == w.cmd && data == w.data && same
+			detail = fmt.Sprintf("found fsmTask(%s, %s, %s), returned=%v; want (%s, %s, %s)", typ, cmd, data, same, wantTyp, w.cmd, w.data)
+		}
+		h.C.Check(rule+" kind-table", h.name(fn), ok, h.fpos(fn), detail)
+	}
+	// fsmTask wires its parameters into the entry unchanged and gives every
+	// request its own completion channel
+	fi := h.P.Info(ft)
+	got := map[string]string{}
+	core.Instrs(ft, func(in ssa.Instruction) {
+		if st, ok := in.(*ssa.Store); ok {
+			got[fi.Sym(st.Addr).String()] = fi.Sym(st.Val).String()
+		}
+	})
+	for k, v := range map[string]string{"new:entry#1.typ": "$0", "new:entry#1.data": "$2", "new:newEntry#1.cmd": "$1", "new:newEntry#1.entry": "new:entry#1", "new:newEntry#1.task": "newTask()"} {
+		h.C.Check(rule+" wiring", "fsmTask "+k, got[k] == v, h.fpos(ft), fmt.Sprintf("fsmTask must set %s from %s; found %q", k, v, got[k]))
+	}
+	nt := h.fn("raft:newTask")
+	nfi := h.P.Info(nt)
+	fresh := false
+	core.Instrs(nt, func(in ssa.Instruction) {
+		if st, ok := in.(*ssa.Store); ok && nfi.Sym(st.Addr).String() == "new:task#1.done" {
+			_, fresh = st.Val.(*ssa.MakeChan)
+		}
+	})
+	h.C.Check(rule+" own-completion-channel", "newTask", fresh, h.fpos(nt), "every task needs its own done channel")
 }
